@@ -10,7 +10,15 @@ P="$1"; TIER="$2"; shift 2
 mkdir -p "$MH"; rsync -a --delete --exclude 'target*' --exclude 'build-*.log' /verif/harness "$MH/"; rsync -a --delete /verif/bin /verif/regressions "$MH/"; cp /verif/known_findings.json "$MH/"
 sed -i "s|path = \"/repo\"|path = \"$WT\"|" "$MH/harness/checks/Cargo.toml"
 cd "$WT"; git checkout -q -- . ; git checkout -q --detach "$(git -C /repo rev-parse HEAD)"
-if [ "$P" != none ]; then git apply "$P" || { echo "patch does not apply"; exit 2; }; fi
+# a change written against an older revision of /repo: apply it with a 3-way merge against HEAD, and if that fails too
+# fall back to the revision named by SCRATCH_BASE (the tree it was written for)
+if [ "$P" != none ]; then
+  git apply "$P" 2>/dev/null || git apply --3way "$P" 2>/dev/null || {
+    git checkout -q -- . ; git reset -q --hard
+    if [ -n "${SCRATCH_BASE:-}" ]; then git checkout -q --detach "$SCRATCH_BASE" && git apply "$P" || { echo "patch does not apply"; exit 2; }
+    else echo "patch does not apply"; exit 2; fi
+  }
+fi
 for id in "$@"; do
   rm -f "$MH"/replays/*.json
   out=$(VERIF_REPO="$WT" "$MH/bin/check" "$id" "$TIER" 2>&1); rc=$?
